@@ -69,6 +69,17 @@ Proof.
   destruct (expire_keys s x cid (due_keys s cid (x_now x)) acc) as [s' acc']. apply IH. exact H.
 Qed.
 
+Lemma burn_ok s x : store_ok s -> store_ok (burn s x).
+Proof. intros Hs. exact Hs. Qed.
+
+Lemma expire_keys_chk_ok x cid keys : forall s acc, store_ok s -> store_ok (fst (expire_keys_chk s x cid keys acc)).
+Proof.
+  induction keys as [|k r IH]; intros s acc Hs; cbn [expire_keys_chk]; [exact Hs|].
+  destruct (is_due (get_doc s (cid, k)) (x_now x)).
+  - apply IH. apply (kv_on_ok s x cid k KDelete); [exact I | exact Hs].
+  - apply IH. apply burn_ok. exact Hs.
+Qed.
+
 Theorem sstep_ok s x o : wf_sop o -> store_ok s -> store_ok (sr_store (sstep s x o)).
 Proof.
   intros Hwf Hs. destruct o; cbn [sstep wf_sop] in *.
@@ -88,6 +99,14 @@ Proof.
   - destruct (coll_id s coll); exact Hs.
   - destruct (coll_id s coll); exact Hs.
   - exact Hs.
+  - destruct (coll_id s wc); [|exact Hs].
+    pose proof (expire_colls_ok x (ids_before (s_colls s) wc) s [] Hs) as H.
+    destruct (expire_colls s x (ids_before (s_colls s) wc) []) as [s' evs]. exact H.
+  - destruct (coll_id s wc) as [cid|]; [|exact Hs].
+    pose proof (expire_keys_chk_ok x cid keys s [] Hs) as H1.
+    destruct (expire_keys_chk s x cid keys []) as [s1 evs1]. cbn [fst] in H1.
+    pose proof (expire_colls_ok x (ids_after (s_colls s) wc) s1 evs1 H1) as H2.
+    destruct (expire_colls s1 x (ids_after (s_colls s) wc) evs1) as [s2 evs2]. exact H2.
 Qed.
 
 Lemma store0_ok : store_ok store0.
